@@ -16,7 +16,12 @@ pub fn main_wrap(prop: &str, run: fn(&mut Ctx)) {
     if ctx.opts.extra("digests").is_some() {
         ctx.enable_digests();
     }
-    run(&mut ctx);
+    // a panic that escapes a leaf is a defect of the harness, not a verdict: say where it came from
+    let r = std::panic::catch_unwind(std::panic::AssertUnwindSafe(|| run(&mut ctx)));
+    if r.is_err() {
+        eprintln!("HARNESS-PANIC (machinery): {}", mbvcore::ctx::last_panic());
+        std::process::exit(101);
+    }
     ctx.finish();
 }
 
